@@ -386,19 +386,79 @@ impl<'c, 'd> ProgGen<'c, 'd> {
 
     fn gen_lambda(&mut self, goal: &Rc<V>, implicit: bool, dom: &Rc<V>, fuel: usize) -> Option<S> {
         let ann = self.annotation(dom)?;
-        let name = self.fresh_name();
+        // "Captured before it is typed": a parameter that a local function mentions under further
+        // binders before anything in the body says what its type is. Names beginning with `late`
+        // tell `erase` to drop these annotations preferentially, so that the parameter's type is
+        // an unsolved hole while the local function's type is inferred.
+        // (mostly where the parameter's type mentions an enclosing variable: the interesting case)
+        let open_dom = matches!(&**dom, V::Var(_) | V::App(..));
+        let late = fuel >= 1 && !implicit && self.ch.chance(if open_dom { 4 } else { 1 }, 8);
+        let name = if late { self.late_name("late") } else { self.fresh_name() };
         let id = self.push_param(&name, dom.clone());
         let cod = match &**goal {
             V::Pi(_, _, clo) => self.nbe.apply_clo(clo, Rc::new(V::Var(id))).ok(),
             _ => None,
         };
         let body = match cod {
+            Some(c) if late => self.late_body(&name, dom, &c, fuel.saturating_sub(1)),
             Some(c) => self.make(&c, fuel.saturating_sub(1)),
             None => None,
         };
         self.scope.pop();
         self.features.insert("function");
         Some(S::Lam { name, implicit, ann: Some(Box::new(ann)), body: Box::new(body?) })
+    }
+
+    fn late_name(&mut self, stem: &str) -> String {
+        loop {
+            self.counter += 1;
+            let n = format!("{stem}{}", self.counter);
+            if self.used.insert(n.clone()) {
+                return n;
+            }
+        }
+    }
+
+    /// `g : (T1 -> .. -> D) = (b1 : T1) => .. => x; y : D = x; [u : D = g a1 ..;] body` for the
+    /// parameter `x : D` just bound: `g` mentions `x` under one to three binders, then `y` fixes
+    /// the type of `x`, then `g` is called. With the annotations of `x` and `g` erased, the type
+    /// inferred for `g` holds the still unsolved type of `x` under those binders.
+    fn late_body(&mut self, x: &str, dom: &Rc<V>, cod: &Rc<V>, fuel: usize) -> Option<S> {
+        let d_s = self.quote_s(dom)?;
+        let k = 1 + self.ch.pick(3);
+        let g = self.late_name("lateg");
+        let y = self.fresh_name();
+        let mut g_ty = d_s.clone();
+        let mut g_def = sast::var(x);
+        let mut call_args = vec![];
+        for _ in 0..k {
+            let b = self.fresh_name();
+            let (t, a) = match self.ch.pick(4) {
+                0 => (S::Int, S::Lit(boundary_literal(self.ch))),
+                1 => (S::Bool, if self.ch.chance(1, 2) { S::True } else { S::False }),
+                2 => (S::Type, [S::Int, S::Bool, sast::arrow(S::Int, S::Bool)][self.ch.pick(3)].clone()),
+                _ => (S::Type, S::Bool),
+            };
+            g_ty = if self.ch.chance(1, 2) { sast::pi(&b, t.clone(), g_ty) } else { sast::arrow(t.clone(), g_ty) };
+            g_def = sast::lam(&b, Some(t), g_def);
+            call_args.push(a);
+        }
+        // The binders were wrapped innermost first: the first argument belongs to the last one.
+        call_args.reverse();
+        let mut call = sast::var(&g);
+        for a in call_args {
+            call = sast::app(call, a);
+        }
+        let mut defs = vec![Def { name: g, ann: Some(g_ty), def: g_def }, Def { name: y, ann: Some(d_s.clone()), def: sast::var(x) }];
+        let body = if self.conv(cod, dom) && self.ch.chance(2, 3) {
+            call
+        } else {
+            let u = self.fresh_name();
+            defs.push(Def { name: u, ann: Some(d_s), def: call });
+            self.make(cod, fuel)?
+        };
+        self.features.insert("parameter captured by a local function before its type is fixed");
+        Some(S::Let { defs, body: Box::new(body) })
     }
 
     fn var_of(&mut self, goal: &Rc<V>) -> Option<S> {
@@ -860,7 +920,7 @@ pub fn erase(s: &S, ch: &mut Ch, erased: &mut usize) -> S {
             let ann2 = match ann {
                 Some(a) => {
                     let base = matches!(a.strip(), S::Int | S::Bool | S::Type);
-                    if (base && ch.chance(1, 3)) || (!base && ch.chance(1, 12)) {
+                    if (name.starts_with("late") && ch.chance(3, 4)) || (base && ch.chance(1, 3)) || (!base && ch.chance(1, 12)) {
                         *erased += 1;
                         None
                     } else if ch.chance(1, 16) {
@@ -886,7 +946,7 @@ pub fn erase(s: &S, ch: &mut Ch, erased: &mut usize) -> S {
                 .map(|d| {
                     let ann = match &d.ann {
                         Some(a) => {
-                            if ch.chance(1, 3) {
+                            if (d.name.starts_with("lateg") && ch.chance(3, 4)) || ch.chance(1, 3) {
                                 *erased += 1;
                                 None
                             } else {
